@@ -1,0 +1,194 @@
+//go:build verif
+
+// Contracts for the table constructors, read by /verif/engine (govc).
+// C09: every table the API builds satisfies the ownership invariants the 37 table editors require
+// (rowsOwn, cellPropsOwn, rowPropsOwn, cellParasOwn, paraRunsOwn) and is a rectangular rows x cols grid.
+// C08: AddTable appends exactly the new table to the body.
+// Comments only: with or without the build tag this file adds no code to the package.
+package document
+
+// cfgText: the initial text of cell (r, c): the data entry when there is one, empty otherwise
+// (short data rows are padded with empty cells, surplus data rows/entries are ignored).
+//@ spec cfgText(cfg *TableConfig, r int, c int) string = ite(r < len(cfg.Data) && c < len(cfg.Data[r]), cfg.Data[r][c], "")
+// cfgWidth: the documented width rule: the given column widths, or the table width divided evenly.
+//@ spec cfgWidth(cfg *TableConfig, c int) int = ite(len(cfg.ColWidths) == 0, cfg.Width / cfg.Cols, cfg.ColWidths[c])
+// cfgValid: the configurations the constructors accept.
+//@ spec cfgValid(cfg *TableConfig) bool = cfg != nil && cfg.Rows > 0 && cfg.Cols > 0 && (len(cfg.ColWidths) == 0 || len(cfg.ColWidths) == cfg.Cols)
+// cellShape: one cell as the constructors build it: own width, no merge markers, no nested table, one paragraph with one run.
+//@ spec cellShape(c *TableCell, w string, txt string) bool = c.Properties != nil && c.Properties.TableCellW != nil && c.Properties.TableCellW.W == w && c.Properties.TableCellW.Type == "dxa" && c.Properties.GridSpan == nil && c.Properties.VMerge == nil && len(c.Tables) == 0 && len(c.Paragraphs) == 1 && len(c.Paragraphs[0].Runs) == 1 && c.Paragraphs[0].Runs[0].Text.Content == txt
+// cellLive: the memory a cell points to is allocated (needed to tell it from what later iterations allocate).
+//@ spec cellLive(c *TableCell) bool = live(c.Properties) && live(c.Properties.TableCellW) && arr(c.Paragraphs) < allocBound() && arr(c.Paragraphs[0].Runs) < allocBound()
+// cellsApart: two cells share neither their properties object nor a paragraph or run array.
+//@ spec cellsApartP(a *TableCell, b *TableCell) bool = a.Properties != b.Properties
+//@ spec cellsApartA(a *TableCell, b *TableCell) bool = arr(a.Paragraphs) != arr(b.Paragraphs)
+//@ spec cellsApartR(a *TableCell, b *TableCell) bool = arr(a.Paragraphs[0].Runs) != arr(b.Paragraphs[0].Runs)
+// cellBelow / cellAbove: the memory of a cell was allocated before / after the allocation counter stood at b.
+//@ spec cellBelow(c *TableCell, b int) bool = !above(c.Properties, b) && arr(c.Paragraphs) < b && arr(c.Paragraphs[0].Runs) < b
+//@ spec cellAbove(c *TableCell, b int) bool = above(c.Properties, b) && arr(c.Paragraphs) >= b && arr(c.Paragraphs[0].Runs) >= b
+
+
+// CreateTable: accepts exactly the valid configurations; the result is made of fresh memory only and nothing that
+// existed before the call is written (a rejected configuration therefore changes nothing).
+//@ func (*Document).CreateTable
+//@ props C09
+//@ requires d != nil
+//@ modifies nothing
+//@ ensures err != nil ==> result0 == nil
+//@ ensures err == nil <==> cfgValid(config)
+//@ ensures err == nil ==> fresh(result0)
+//@ ensures err == nil ==> len(result0.Rows) == config.Rows && freshArr(result0.Rows)
+//@ ensures err == nil ==> result0.Grid != nil && fresh(result0.Grid) && len(result0.Grid.Cols) == config.Cols && freshArr(result0.Grid.Cols)
+//@ ensures err == nil ==> forall c int :: 0 <= c && c < config.Cols ==> result0.Grid.Cols[c].W == itoa(cfgWidth(config, c))
+//@ ensures err == nil ==> forall r int :: 0 <= r && r < config.Rows ==> len(result0.Rows[r].Cells) == config.Cols && result0.Rows[r].Properties == nil && freshArr(result0.Rows[r].Cells)
+//@ ensures err == nil ==> forall r int, c int :: {result0.Rows[r].Cells[c]} 0 <= r && r < config.Rows && 0 <= c && c < config.Cols ==> cellShape(&result0.Rows[r].Cells[c], itoa(cfgWidth(config, c)), cfgText(config, r, c))
+//@ ensures err == nil ==> forall r int, c int :: {result0.Rows[r].Cells[c]} 0 <= r && r < config.Rows && 0 <= c && c < config.Cols ==> fresh(result0.Rows[r].Cells[c].Properties) && freshArr(result0.Rows[r].Cells[c].Paragraphs) && freshArr(result0.Rows[r].Cells[c].Paragraphs[0].Runs)
+//@ ensures err == nil ==> rowsOwn(result0)
+//@ ensures err == nil ==> cellPropsOwn(result0)
+//@ ensures err == nil ==> rowPropsOwn(result0)
+//@ ensures err == nil ==> cellParasOwn(result0)
+//@ ensures err == nil ==> paraRunsOwn(result0)
+//@ loop 1
+//@   invariant 0 <= #i && #i <= len(colWidths) && unchangedHeap()
+//@   invariant len(colWidths) == config.Cols && arr(colWidths) >= old(allocBound())
+//@   invariant avgWidth == config.Width / config.Cols
+//@   invariant forall k int :: 0 <= k && k < #i ==> colWidths[k] == avgWidth
+//@   decreases len(colWidths) - #i
+//@ loop 2
+//@   invariant 0 <= #i && #i <= len(colWidths) && unchangedHeap()
+//@   invariant len(colWidths) == config.Cols
+//@   invariant forall k int :: 0 <= k && k < config.Cols ==> colWidths[k] == cfgWidth(config, k)
+//@   invariant fresh(table) && fresh(table.Grid) && len(table.Grid.Cols) == #i && freshArr(table.Grid.Cols) && arr(table.Grid.Cols) < allocBound()
+//@   invariant forall k int :: 0 <= k && k < #i ==> table.Grid.Cols[k].W == itoa(cfgWidth(config, k))
+//@   decreases len(colWidths) - #i
+//@ loop 3
+//@   invariant 0 <= i && i <= config.Rows && unchangedHeap()
+//@   invariant len(colWidths) == config.Cols
+//@   invariant forall k int :: 0 <= k && k < config.Cols ==> colWidths[k] == cfgWidth(config, k)
+//@   invariant len(table.Rows) == i && cap(table.Rows) == config.Rows && off(table.Rows) == 0 && arr(table.Rows) >= old(allocBound()) && arr(table.Rows) < allocBound()
+//@   invariant forall r int :: 0 <= r && r < i ==> len(table.Rows[0:config.Rows][r].Cells) == config.Cols && table.Rows[0:config.Rows][r].Properties == nil && arr(table.Rows[0:config.Rows][r].Cells) >= old(allocBound()) && arr(table.Rows[0:config.Rows][r].Cells) < allocBound()
+//@   invariant forall r1 int, r2 int :: 0 <= r1 && r1 < r2 && r2 < i ==> arr(table.Rows[0:config.Rows][r1].Cells) < arr(table.Rows[0:config.Rows][r2].Cells)
+//@   invariant forall r int, c int :: {table.Rows[0:config.Rows][r].Cells[c]} 0 <= r && r < i && 0 <= c && c < config.Cols ==> cellShape(&table.Rows[0:config.Rows][r].Cells[c], itoa(colWidths[c]), cfgText(config, r, c)) && cellLive(&table.Rows[0:config.Rows][r].Cells[c])
+//@   invariant forall r int, c int :: {table.Rows[0:config.Rows][r].Cells[c]} 0 <= r && r < i && 0 <= c && c < config.Cols ==> cellAbove(&table.Rows[0:config.Rows][r].Cells[c], arr(table.Rows[0:config.Rows][r].Cells))
+//@   invariant forall r1 int, r2 int, c int :: {table.Rows[0:config.Rows][r1].Cells[c], table.Rows[0:config.Rows][r2]} 0 <= r1 && r1 < r2 && r2 < i && 0 <= c && c < config.Cols ==> cellBelow(&table.Rows[0:config.Rows][r1].Cells[c], arr(table.Rows[0:config.Rows][r2].Cells))
+//@   invariant forall r int, c1 int, c2 int :: {table.Rows[0:config.Rows][r].Cells[c1], table.Rows[0:config.Rows][r].Cells[c2]} 0 <= r && r < i && 0 <= c1 && c1 < config.Cols && 0 <= c2 && c2 < config.Cols && c1 != c2 ==> cellsApartP(&table.Rows[0:config.Rows][r].Cells[c1], &table.Rows[0:config.Rows][r].Cells[c2])
+//@   invariant forall r int, c1 int, c2 int :: {table.Rows[0:config.Rows][r].Cells[c1], table.Rows[0:config.Rows][r].Cells[c2]} 0 <= r && r < i && 0 <= c1 && c1 < config.Cols && 0 <= c2 && c2 < config.Cols && c1 != c2 ==> cellsApartA(&table.Rows[0:config.Rows][r].Cells[c1], &table.Rows[0:config.Rows][r].Cells[c2])
+//@   invariant forall r int, c1 int, c2 int :: {table.Rows[0:config.Rows][r].Cells[c1], table.Rows[0:config.Rows][r].Cells[c2]} 0 <= r && r < i && 0 <= c1 && c1 < config.Cols && 0 <= c2 && c2 < config.Cols && c1 != c2 ==> cellsApartR(&table.Rows[0:config.Rows][r].Cells[c1], &table.Rows[0:config.Rows][r].Cells[c2])
+//@   decreases config.Rows - i
+//@ loop 4
+//@   invariant 0 <= i && i < config.Rows && unchangedHeap()
+//@   invariant len(colWidths) == config.Cols
+//@   invariant forall k int :: 0 <= k && k < config.Cols ==> colWidths[k] == cfgWidth(config, k)
+//@   invariant len(table.Rows) == i && cap(table.Rows) == config.Rows && off(table.Rows) == 0 && arr(table.Rows) >= old(allocBound()) && arr(table.Rows) < allocBound()
+//@   invariant forall r int :: 0 <= r && r < i ==> len(table.Rows[0:config.Rows][r].Cells) == config.Cols && table.Rows[0:config.Rows][r].Properties == nil && arr(table.Rows[0:config.Rows][r].Cells) >= old(allocBound()) && arr(table.Rows[0:config.Rows][r].Cells) < allocBound() && arr(table.Rows[0:config.Rows][r].Cells) < arr(row.Cells)
+//@   invariant forall r1 int, r2 int :: 0 <= r1 && r1 < r2 && r2 < i ==> arr(table.Rows[0:config.Rows][r1].Cells) < arr(table.Rows[0:config.Rows][r2].Cells)
+//@   invariant forall r int, c int :: {table.Rows[0:config.Rows][r].Cells[c]} 0 <= r && r < i && 0 <= c && c < config.Cols ==> cellShape(&table.Rows[0:config.Rows][r].Cells[c], itoa(colWidths[c]), cfgText(config, r, c)) && cellLive(&table.Rows[0:config.Rows][r].Cells[c])
+//@   invariant forall r int, c int :: {table.Rows[0:config.Rows][r].Cells[c]} 0 <= r && r < i && 0 <= c && c < config.Cols ==> cellAbove(&table.Rows[0:config.Rows][r].Cells[c], arr(table.Rows[0:config.Rows][r].Cells))
+//@   invariant forall r1 int, r2 int, c int :: {table.Rows[0:config.Rows][r1].Cells[c], table.Rows[0:config.Rows][r2]} 0 <= r1 && r1 < r2 && r2 < i && 0 <= c && c < config.Cols ==> cellBelow(&table.Rows[0:config.Rows][r1].Cells[c], arr(table.Rows[0:config.Rows][r2].Cells))
+//@   invariant forall r int, c1 int, c2 int :: {table.Rows[0:config.Rows][r].Cells[c1], table.Rows[0:config.Rows][r].Cells[c2]} 0 <= r && r < i && 0 <= c1 && c1 < config.Cols && 0 <= c2 && c2 < config.Cols && c1 != c2 ==> cellsApartP(&table.Rows[0:config.Rows][r].Cells[c1], &table.Rows[0:config.Rows][r].Cells[c2])
+//@   invariant forall r int, c1 int, c2 int :: {table.Rows[0:config.Rows][r].Cells[c1], table.Rows[0:config.Rows][r].Cells[c2]} 0 <= r && r < i && 0 <= c1 && c1 < config.Cols && 0 <= c2 && c2 < config.Cols && c1 != c2 ==> cellsApartA(&table.Rows[0:config.Rows][r].Cells[c1], &table.Rows[0:config.Rows][r].Cells[c2])
+//@   invariant forall r int, c1 int, c2 int :: {table.Rows[0:config.Rows][r].Cells[c1], table.Rows[0:config.Rows][r].Cells[c2]} 0 <= r && r < i && 0 <= c1 && c1 < config.Cols && 0 <= c2 && c2 < config.Cols && c1 != c2 ==> cellsApartR(&table.Rows[0:config.Rows][r].Cells[c1], &table.Rows[0:config.Rows][r].Cells[c2])
+//@   invariant 0 <= j && j <= config.Cols && row.Properties == nil && len(row.Cells) == j && cap(row.Cells) == config.Cols && off(row.Cells) == 0 && arr(row.Cells) >= old(allocBound()) && arr(row.Cells) < allocBound()
+//@   invariant forall c int :: {row.Cells[0:config.Cols][c]} 0 <= c && c < j ==> cellShape(&row.Cells[0:config.Cols][c], itoa(colWidths[c]), cfgText(config, i, c)) && cellLive(&row.Cells[0:config.Cols][c])
+//@   invariant forall r int, c int :: {table.Rows[0:config.Rows][r].Cells[c]} 0 <= r && r < i && 0 <= c && c < config.Cols ==> cellBelow(&table.Rows[0:config.Rows][r].Cells[c], arr(row.Cells))
+//@   invariant forall c int :: {row.Cells[0:config.Cols][c]} 0 <= c && c < j ==> cellAbove(&row.Cells[0:config.Cols][c], arr(row.Cells))
+//@   invariant forall c1 int, c2 int :: {row.Cells[0:config.Cols][c1], row.Cells[0:config.Cols][c2]} 0 <= c1 && c1 < j && 0 <= c2 && c2 < j && c1 != c2 ==> cellsApartP(&row.Cells[0:config.Cols][c1], &row.Cells[0:config.Cols][c2])
+//@   invariant forall c1 int, c2 int :: {row.Cells[0:config.Cols][c1], row.Cells[0:config.Cols][c2]} 0 <= c1 && c1 < j && 0 <= c2 && c2 < j && c1 != c2 ==> cellsApartA(&row.Cells[0:config.Cols][c1], &row.Cells[0:config.Cols][c2])
+//@   invariant forall c1 int, c2 int :: {row.Cells[0:config.Cols][c1], row.Cells[0:config.Cols][c2]} 0 <= c1 && c1 < j && 0 <= c2 && c2 < j && c1 != c2 ==> cellsApartR(&row.Cells[0:config.Cols][c1], &row.Cells[0:config.Cols][c2])
+//@   decreases config.Cols - j
+
+
+// AddTable: CreateTable, then the table is appended as the last body element; every earlier element stays in its slot.
+// A rejected configuration changes nothing.
+//@ func (*Document).AddTable
+//@ props C08, C09
+//@ requires d != nil && d.Body != nil
+//@ ensures err == nil <==> cfgValid(config)
+//@ ensures err != nil ==> result0 == nil && unchangedHeap()
+//@ ensures err == nil ==> fresh(result0)
+//@ ensures err == nil ==> len(d.Body.Elements) == old(len(d.Body.Elements)) + 1
+//@ ensures err == nil ==> typeIs(d.Body.Elements[old(len(d.Body.Elements))], "*Table") && d.Body.Elements[old(len(d.Body.Elements))].(*Table) == result0
+//@ ensures err == nil ==> forall j int :: 0 <= j && j < old(len(d.Body.Elements)) ==> d.Body.Elements[j] == old(d.Body.Elements[j])
+//@ ensures err == nil && old(elemsOK(d.Body.Elements)) && (forall j int :: 0 <= j && j < old(len(d.Body.Elements)) ==> d.Body.Elements[j] == old(d.Body.Elements[j])) && len(d.Body.Elements) == old(len(d.Body.Elements)) + 1 && result0 != nil && d.Body.Elements[old(len(d.Body.Elements))].(*Table) == result0 ==> elemsOK(d.Body.Elements)
+//@ ensures unchangedExcept("Body.Elements", "cell:any")
+//@ ensures err == nil ==> len(result0.Rows) == config.Rows && freshArr(result0.Rows)
+//@ ensures err == nil ==> result0.Grid != nil && fresh(result0.Grid) && len(result0.Grid.Cols) == config.Cols && freshArr(result0.Grid.Cols)
+//@ ensures err == nil ==> forall c int :: 0 <= c && c < config.Cols ==> result0.Grid.Cols[c].W == itoa(cfgWidth(config, c))
+//@ ensures err == nil ==> forall r int :: 0 <= r && r < config.Rows ==> len(result0.Rows[r].Cells) == config.Cols && result0.Rows[r].Properties == nil && freshArr(result0.Rows[r].Cells)
+//@ ensures err == nil ==> forall r int, c int :: {result0.Rows[r].Cells[c]} 0 <= r && r < config.Rows && 0 <= c && c < config.Cols ==> cellShape(&result0.Rows[r].Cells[c], itoa(cfgWidth(config, c)), cfgText(config, r, c))
+//@ ensures err == nil ==> forall r int, c int :: {result0.Rows[r].Cells[c]} 0 <= r && r < config.Rows && 0 <= c && c < config.Cols ==> fresh(result0.Rows[r].Cells[c].Properties) && freshArr(result0.Rows[r].Cells[c].Paragraphs) && freshArr(result0.Rows[r].Cells[c].Paragraphs[0].Runs)
+//@ ensures err == nil ==> rowsOwn(result0)
+//@ ensures err == nil ==> cellPropsOwn(result0)
+//@ ensures err == nil ==> rowPropsOwn(result0)
+//@ ensures err == nil ==> cellParasOwn(result0)
+//@ ensures err == nil ==> paraRunsOwn(result0)
+
+
+// AddNestedTable builds its table exactly as CreateTable does and appends a copy of the table header to the
+// cell's nested-table list; the result points at that list element. Rejected arguments change nothing.
+//@ func (*Table).AddNestedTable
+//@ props C09
+//@ requires t != nil
+//@ modifies TableCell.Tables, Table.*
+//@ ensures err == nil <==> (0 <= row && row < old(len(t.Rows)) && 0 <= col && col < old(len(t.Rows[row].Cells)) && cfgValid(config))
+//@ ensures err != nil ==> result0 == nil && unchangedHeap()
+//@ ensures err == nil ==> len(old(&t.Rows[row].Cells[col]).Tables) == old(len(t.Rows[row].Cells[col].Tables)) + 1 && result0 == &old(&t.Rows[row].Cells[col]).Tables[old(len(t.Rows[row].Cells[col].Tables))]
+//@ ensures err == nil ==> forall k int :: 0 <= k && k < old(len(t.Rows[row].Cells[col].Tables)) ==> old(&t.Rows[row].Cells[col]).Tables[k] == old(t.Rows[row].Cells[col].Tables[k])
+//@ ensures err == nil ==> len(result0.Rows) == config.Rows && freshArr(result0.Rows)
+//@ ensures err == nil ==> result0.Grid != nil && fresh(result0.Grid) && len(result0.Grid.Cols) == config.Cols && freshArr(result0.Grid.Cols)
+//@ ensures err == nil ==> forall c int :: 0 <= c && c < config.Cols ==> result0.Grid.Cols[c].W == itoa(cfgWidth(config, c))
+//@ ensures err == nil ==> forall r int :: 0 <= r && r < config.Rows ==> len(result0.Rows[r].Cells) == config.Cols && result0.Rows[r].Properties == nil && freshArr(result0.Rows[r].Cells)
+//@ ensures err == nil ==> forall r int, c int :: {result0.Rows[r].Cells[c]} 0 <= r && r < config.Rows && 0 <= c && c < config.Cols ==> cellShape(&result0.Rows[r].Cells[c], itoa(cfgWidth(config, c)), cfgText(config, r, c))
+//@ ensures err == nil ==> forall r int, c int :: {result0.Rows[r].Cells[c]} 0 <= r && r < config.Rows && 0 <= c && c < config.Cols ==> fresh(result0.Rows[r].Cells[c].Properties) && freshArr(result0.Rows[r].Cells[c].Paragraphs) && freshArr(result0.Rows[r].Cells[c].Paragraphs[0].Runs)
+//@ ensures err == nil ==> rowsOwn(result0)
+//@ ensures err == nil ==> cellPropsOwn(result0)
+//@ ensures err == nil ==> rowPropsOwn(result0)
+//@ ensures err == nil ==> cellParasOwn(result0)
+//@ ensures err == nil ==> paraRunsOwn(result0)
+//@ loop 1
+//@   invariant 0 <= #i && #i <= len(colWidths) && unchangedHeap()
+//@   invariant len(colWidths) == config.Cols && arr(colWidths) >= old(allocBound())
+//@   invariant avgWidth == config.Width / config.Cols
+//@   invariant forall k int :: 0 <= k && k < #i ==> colWidths[k] == avgWidth
+//@   decreases len(colWidths) - #i
+//@ loop 2
+//@   invariant 0 <= #i && #i <= len(colWidths) && unchangedHeap()
+//@   invariant len(colWidths) == config.Cols
+//@   invariant forall k int :: 0 <= k && k < config.Cols ==> colWidths[k] == cfgWidth(config, k)
+//@   invariant fresh(nestedTable) && fresh(nestedTable.Grid) && len(nestedTable.Grid.Cols) == #i && freshArr(nestedTable.Grid.Cols) && arr(nestedTable.Grid.Cols) < allocBound()
+//@   invariant forall k int :: 0 <= k && k < #i ==> nestedTable.Grid.Cols[k].W == itoa(cfgWidth(config, k))
+//@   decreases len(colWidths) - #i
+//@ loop 3
+//@   invariant 0 <= i && i <= config.Rows && unchangedHeap()
+//@   invariant len(colWidths) == config.Cols
+//@   invariant forall k int :: 0 <= k && k < config.Cols ==> colWidths[k] == cfgWidth(config, k)
+//@   invariant len(nestedTable.Rows) == i && cap(nestedTable.Rows) == config.Rows && off(nestedTable.Rows) == 0 && arr(nestedTable.Rows) >= old(allocBound()) && arr(nestedTable.Rows) < allocBound()
+//@   invariant forall r int :: 0 <= r && r < i ==> len(nestedTable.Rows[0:config.Rows][r].Cells) == config.Cols && nestedTable.Rows[0:config.Rows][r].Properties == nil && arr(nestedTable.Rows[0:config.Rows][r].Cells) >= old(allocBound()) && arr(nestedTable.Rows[0:config.Rows][r].Cells) < allocBound()
+//@   invariant forall r1 int, r2 int :: 0 <= r1 && r1 < r2 && r2 < i ==> arr(nestedTable.Rows[0:config.Rows][r1].Cells) < arr(nestedTable.Rows[0:config.Rows][r2].Cells)
+//@   invariant forall r int, c int :: {nestedTable.Rows[0:config.Rows][r].Cells[c]} 0 <= r && r < i && 0 <= c && c < config.Cols ==> cellShape(&nestedTable.Rows[0:config.Rows][r].Cells[c], itoa(colWidths[c]), cfgText(config, r, c)) && cellLive(&nestedTable.Rows[0:config.Rows][r].Cells[c])
+//@   invariant forall r int, c int :: {nestedTable.Rows[0:config.Rows][r].Cells[c]} 0 <= r && r < i && 0 <= c && c < config.Cols ==> cellAbove(&nestedTable.Rows[0:config.Rows][r].Cells[c], arr(nestedTable.Rows[0:config.Rows][r].Cells))
+//@   invariant forall r1 int, r2 int, c int :: {nestedTable.Rows[0:config.Rows][r1].Cells[c], nestedTable.Rows[0:config.Rows][r2]} 0 <= r1 && r1 < r2 && r2 < i && 0 <= c && c < config.Cols ==> cellBelow(&nestedTable.Rows[0:config.Rows][r1].Cells[c], arr(nestedTable.Rows[0:config.Rows][r2].Cells))
+//@   invariant forall r int, c1 int, c2 int :: {nestedTable.Rows[0:config.Rows][r].Cells[c1], nestedTable.Rows[0:config.Rows][r].Cells[c2]} 0 <= r && r < i && 0 <= c1 && c1 < config.Cols && 0 <= c2 && c2 < config.Cols && c1 != c2 ==> cellsApartP(&nestedTable.Rows[0:config.Rows][r].Cells[c1], &nestedTable.Rows[0:config.Rows][r].Cells[c2])
+//@   invariant forall r int, c1 int, c2 int :: {nestedTable.Rows[0:config.Rows][r].Cells[c1], nestedTable.Rows[0:config.Rows][r].Cells[c2]} 0 <= r && r < i && 0 <= c1 && c1 < config.Cols && 0 <= c2 && c2 < config.Cols && c1 != c2 ==> cellsApartA(&nestedTable.Rows[0:config.Rows][r].Cells[c1], &nestedTable.Rows[0:config.Rows][r].Cells[c2])
+//@   invariant forall r int, c1 int, c2 int :: {nestedTable.Rows[0:config.Rows][r].Cells[c1], nestedTable.Rows[0:config.Rows][r].Cells[c2]} 0 <= r && r < i && 0 <= c1 && c1 < config.Cols && 0 <= c2 && c2 < config.Cols && c1 != c2 ==> cellsApartR(&nestedTable.Rows[0:config.Rows][r].Cells[c1], &nestedTable.Rows[0:config.Rows][r].Cells[c2])
+//@   decreases config.Rows - i
+//@ loop 4
+//@   invariant 0 <= i && i < config.Rows && unchangedHeap()
+//@   invariant len(colWidths) == config.Cols
+//@   invariant forall k int :: 0 <= k && k < config.Cols ==> colWidths[k] == cfgWidth(config, k)
+//@   invariant len(nestedTable.Rows) == i && cap(nestedTable.Rows) == config.Rows && off(nestedTable.Rows) == 0 && arr(nestedTable.Rows) >= old(allocBound()) && arr(nestedTable.Rows) < allocBound()
+//@   invariant forall r int :: 0 <= r && r < i ==> len(nestedTable.Rows[0:config.Rows][r].Cells) == config.Cols && nestedTable.Rows[0:config.Rows][r].Properties == nil && arr(nestedTable.Rows[0:config.Rows][r].Cells) >= old(allocBound()) && arr(nestedTable.Rows[0:config.Rows][r].Cells) < allocBound() && arr(nestedTable.Rows[0:config.Rows][r].Cells) < arr(tableRow.Cells)
+//@   invariant forall r1 int, r2 int :: 0 <= r1 && r1 < r2 && r2 < i ==> arr(nestedTable.Rows[0:config.Rows][r1].Cells) < arr(nestedTable.Rows[0:config.Rows][r2].Cells)
+//@   invariant forall r int, c int :: {nestedTable.Rows[0:config.Rows][r].Cells[c]} 0 <= r && r < i && 0 <= c && c < config.Cols ==> cellShape(&nestedTable.Rows[0:config.Rows][r].Cells[c], itoa(colWidths[c]), cfgText(config, r, c)) && cellLive(&nestedTable.Rows[0:config.Rows][r].Cells[c])
+//@   invariant forall r int, c int :: {nestedTable.Rows[0:config.Rows][r].Cells[c]} 0 <= r && r < i && 0 <= c && c < config.Cols ==> cellAbove(&nestedTable.Rows[0:config.Rows][r].Cells[c], arr(nestedTable.Rows[0:config.Rows][r].Cells))
+//@   invariant forall r1 int, r2 int, c int :: {nestedTable.Rows[0:config.Rows][r1].Cells[c], nestedTable.Rows[0:config.Rows][r2]} 0 <= r1 && r1 < r2 && r2 < i && 0 <= c && c < config.Cols ==> cellBelow(&nestedTable.Rows[0:config.Rows][r1].Cells[c], arr(nestedTable.Rows[0:config.Rows][r2].Cells))
+//@   invariant forall r int, c1 int, c2 int :: {nestedTable.Rows[0:config.Rows][r].Cells[c1], nestedTable.Rows[0:config.Rows][r].Cells[c2]} 0 <= r && r < i && 0 <= c1 && c1 < config.Cols && 0 <= c2 && c2 < config.Cols && c1 != c2 ==> cellsApartP(&nestedTable.Rows[0:config.Rows][r].Cells[c1], &nestedTable.Rows[0:config.Rows][r].Cells[c2])
+//@   invariant forall r int, c1 int, c2 int :: {nestedTable.Rows[0:config.Rows][r].Cells[c1], nestedTable.Rows[0:config.Rows][r].Cells[c2]} 0 <= r && r < i && 0 <= c1 && c1 < config.Cols && 0 <= c2 && c2 < config.Cols && c1 != c2 ==> cellsApartA(&nestedTable.Rows[0:config.Rows][r].Cells[c1], &nestedTable.Rows[0:config.Rows][r].Cells[c2])
+//@   invariant forall r int, c1 int, c2 int :: {nestedTable.Rows[0:config.Rows][r].Cells[c1], nestedTable.Rows[0:config.Rows][r].Cells[c2]} 0 <= r && r < i && 0 <= c1 && c1 < config.Cols && 0 <= c2 && c2 < config.Cols && c1 != c2 ==> cellsApartR(&nestedTable.Rows[0:config.Rows][r].Cells[c1], &nestedTable.Rows[0:config.Rows][r].Cells[c2])
+//@   invariant 0 <= j && j <= config.Cols && tableRow.Properties == nil && len(tableRow.Cells) == j && cap(tableRow.Cells) == config.Cols && off(tableRow.Cells) == 0 && arr(tableRow.Cells) >= old(allocBound()) && arr(tableRow.Cells) < allocBound()
+//@   invariant forall c int :: {tableRow.Cells[0:config.Cols][c]} 0 <= c && c < j ==> cellShape(&tableRow.Cells[0:config.Cols][c], itoa(colWidths[c]), cfgText(config, i, c)) && cellLive(&tableRow.Cells[0:config.Cols][c])
+//@   invariant forall r int, c int :: {nestedTable.Rows[0:config.Rows][r].Cells[c]} 0 <= r && r < i && 0 <= c && c < config.Cols ==> cellBelow(&nestedTable.Rows[0:config.Rows][r].Cells[c], arr(tableRow.Cells))
+//@   invariant forall c int :: {tableRow.Cells[0:config.Cols][c]} 0 <= c && c < j ==> cellAbove(&tableRow.Cells[0:config.Cols][c], arr(tableRow.Cells))
+//@   invariant forall c1 int, c2 int :: {tableRow.Cells[0:config.Cols][c1], tableRow.Cells[0:config.Cols][c2]} 0 <= c1 && c1 < j && 0 <= c2 && c2 < j && c1 != c2 ==> cellsApartP(&tableRow.Cells[0:config.Cols][c1], &tableRow.Cells[0:config.Cols][c2])
+//@   invariant forall c1 int, c2 int :: {tableRow.Cells[0:config.Cols][c1], tableRow.Cells[0:config.Cols][c2]} 0 <= c1 && c1 < j && 0 <= c2 && c2 < j && c1 != c2 ==> cellsApartA(&tableRow.Cells[0:config.Cols][c1], &tableRow.Cells[0:config.Cols][c2])
+//@   invariant forall c1 int, c2 int :: {tableRow.Cells[0:config.Cols][c1], tableRow.Cells[0:config.Cols][c2]} 0 <= c1 && c1 < j && 0 <= c2 && c2 < j && c1 != c2 ==> cellsApartR(&tableRow.Cells[0:config.Cols][c1], &tableRow.Cells[0:config.Cols][c2])
+//@   decreases config.Cols - j
